@@ -397,9 +397,19 @@ pub fn install_panic_hook() {
             } else {
                 "panic".to_string()
             };
+            if let Ok(mut t) = LAST_PANIC_TEXT.try_lock() {
+                *t = format!("{}:{}: {}", file, line, msg);
+            }
             LAST_PANIC.with(|p| *p.borrow_mut() = Some(PanicInfo { file, line, msg }));
         }));
     });
+}
+
+static LAST_PANIC_TEXT: Mutex<String> = Mutex::new(String::new());
+
+/// description of the most recent panic of any thread (for worker diagnostics)
+pub fn last_panic_text() -> String {
+    LAST_PANIC_TEXT.lock().map(|s| s.clone()).unwrap_or_default()
 }
 
 pub fn repo_dir() -> String {
